@@ -2,10 +2,10 @@
 import json, os
 from vlib import core
 
-THEOREMS = ['consts', 'frames_eq', 'no_negotiation', 'picks_min', 'picks_min_ok', 'unsupported_is_1_0_1', 'set_only_if_needed',
+THEOREMS = ['consts', 'src_negotiate', 'src_classes_wf', 'src_picks_min', 'frames_eq', 'no_negotiation', 'picks_min', 'picks_min_ok', 'unsupported_is_1_0_1', 'set_only_if_needed',
             'negotiation_frames_v1_1', 'set_payload_denotes_version', 'supported_reply_decodes', 'failures_fail',
             'supported_none_iff', 'accepted_false_iff', 'after_version', 'result_version', 'stamped_after']
-MODULES = ['LLRP.Model.Negotiate', 'LLRP.Model.WriteSide', 'LLRP.Proofs.WriteSide', 'LLRP.Oracle.C06']
+MODULES = ['LLRP.Model.Negotiate', 'LLRP.Model.GoSeq', 'LLRP.Proofs.SeqNegotiate', 'LLRP.Model.WriteSide', 'LLRP.Proofs.WriteSide', 'LLRP.Oracle.C06']
 RULE = ('scripted independent reader over net.Pipe (frames built and parsed by hand): client maxima {1.0.1, 1.1} x reader (current, max) in '
         '{0..7}x{0..7} (plus whole-byte values beyond 3 bits and the shifted form 0x20/0x40) x first reaction {success, GetSupportedVersionResponse '
         'with error status, ERROR_MESSAGE with status 110/0/100/101/401/65535, wrong type (57, 4, 12, 1023), undecodable (6 shapes), oversize, '
@@ -15,8 +15,9 @@ RULE = ('scripted independent reader over net.Pipe (frames built and parsed by h
         'later request and of a later keep-alive acknowledgement. distinct = distinct scripts; non-trivial = scripts in which negotiation '
         'messages are sent')
 ASSUMPTIONS = [
-    'the negotiation model (LLRP.Model.Negotiate) and the write-side fold (LLRP.Model.WriteSide) are hand-written; they are tied to '
-    'Client.negotiate / getSupportedVersion / handleOutgoing by this differential run',
+    'the negotiation model (LLRP.Model.Negotiate) is proved equal to the go2seq translation of Client.negotiate / getSupportedVersion / Message.isResponseTo '
+    '(src_negotiate; the meaning of the calls they make is SeqGlue.negEnv / gsvEnv / isrEnv: hand-written); the write-side fold (LLRP.Model.WriteSide) is hand-written; '
+    'both are tied to the real code by this differential run',
     'replies are classified by the codec model over the regenerated table (verb negotiate) and over the pinned specification table '
     '(verb negotiate-spec); the real client must agree with both',
     'an ERROR_MESSAGE whose status is Success is treated by the code like VersionUnsupported (reader taken to be 1.0.1); modelled as it is',
